@@ -297,3 +297,25 @@ def coqchk(pid, timeout=2400):
     bad = [a for a in axioms if a.replace('Coq.Logic.', '').replace('Coq.Reals.', '') not in ALLOWED_AXIOMS]
     flags_ok = all(k in out for k in ('type-in-type: <none>', 'unsafe (co)fixpoints: <none>', 'positivity is assumed: <none>'))
     return {'ok': rc == 0 and not bad and flags_ok, 'rc': rc, 'axioms': axioms, 'not_allowlisted': bad, 'wall_s': round(time.time() - t, 1), 'tail': out[-600:] if rc else ''}
+
+
+# which properties' models/theorems depend on which translated item (a broken item is a broken tie only for those)
+SER_ITEMS = ('ESCAPE_TABLE', 'CHAR_ESCAPE_SHAPE')
+SER_PROPS = ('C03', 'C04', 'C05', 'C13', 'C15', 'C16')
+LEX_PROPS = ('C07', 'C04', 'C16', 'C01', 'C02')
+INDEPENDENT = ('C17', 'C18')          # Map / pointer / macro developments use no generated table
+
+def tie_relevant(pid, broken_line):
+    if pid in INDEPENDENT:
+        return False
+    m = re.match(r'BROKEN\s+([A-Za-z0-9_-]+)', broken_line)
+    item = m.group(1) if m else ''
+    if item in SER_ITEMS:
+        return pid in SER_PROPS
+    if item.startswith('lexical') or 'lexical' in broken_line or item.upper().startswith('LEX') or item.startswith('BASE10') or item.startswith('POW5') or item.startswith('F32_') or item.startswith('F64_'):
+        return pid in LEX_PROPS
+    if item == 'tables-changed':
+        names = re.findall(r'Definition (\w+)', broken_line)
+        if names and all(n in ('ESCAPE_TABLE',) for n in names):
+            return pid in SER_PROPS
+    return True
